@@ -14,7 +14,10 @@ KEYWORDS = {"type", "ref", "in", "out", "as", "try", "enum", "const", "fn", "mod
 
 OBJ_NAMES = ["Foo", "Bar", "Baz", "Ctrl", "Status", "Data", "Cfg0", "Cfg1", "Irq", "Mode", "Fifo", "Pwr", "Tx", "Rx",
              "Gain", "Temp", "Id", "Cal", "Dac", "Adc", "Lna", "Mix", "Pll", "Osc", "Clk", "Rst", "Wake", "Slp"]
-FIELD_NAMES = ["a", "b", "c", "d", "e", "val", "en", "flag", "lvl", "sel", "mode", "x", "y", "z", "hi", "lo", "cnt", "err"]
+FIELD_NAMES = ["a", "b", "c", "d", "e", "val", "en", "flag", "lvl", "sel", "mode", "x", "y", "z", "hi", "lo", "cnt", "err",
+               # a letter next to a digit, a case change inside a word: where the configured word boundaries and the
+               # default ones split differently
+               "ch1_gain", "adc2val", "i2c_en", "x2Y", "fifoLvl"]
 VARIANT_NAMES = ["A", "B", "C", "D", "E", "F", "G", "H", "On", "Off", "Lo", "Hi", "Mid", "Auto", "Man", "X0", "X1"]
 # spellings that coincide (or not) after normalisation
 COLLIDING = [["my_reg", "MyReg", "myReg", "MY_REG"], ["foo_2", "Foo2", "foo2"], ["ab_cd", "AbCd", "abCd", "AB_CD"],
@@ -145,7 +148,7 @@ class Gen:
                 e = self.enum(width, allow_bad=enum_bad, cfg_p=cfg_p / 2, use_try=use_try)
                 f["conversion"] = {"enum": e, "try": use_try}
             else:
-                f["conversion"] = {"type": self.pick(["conv::Ty", "crate::conv::Ty", "::ddv_conv::Ty", "Ext"]), "try": self.chance(0.5)}
+                f["conversion"] = {"type": self.pick(["conv::Ty", "crate::conv::Ty", "::ddv_conv::Ty", "Ext", "conv::Gen<u8>", "crate::conv::Gen<conv::Ty>"]), "try": self.chance(0.5)}
         return f
 
     def partition_fields(self, size, max_fields=5, **kw):
